@@ -16,6 +16,12 @@ import collections
 
 RULES = collections.Counter()
 
+# spec / ghost text is 128-bit specification arithmetic: its own overflow checks are switched off
+# (listed as an assumption: magnitudes stay below 2^100 for int64 inputs); checks in the extracted
+# code are untouched.
+SPEC_PUSH = '#ifdef VERIF_CBMC /* ghost */\n#pragma CPROVER check push\n#pragma CPROVER check disable "signed-overflow"\n#pragma CPROVER check disable "conversion"\n'
+SPEC_POP = '#pragma CPROVER check pop\n#endif\n'
+
 
 class ExtractError(Exception):
     pass
@@ -1050,6 +1056,7 @@ class FuncTranslator:
         self.loop_contracts = {}
         self.pre_loop = {}
         self.hoisted = []
+        self.stmt_hooks = []
 
     def P(self, toks=None):
         return Parser(toks if toks is not None else self.toks, self.ctx, self.scope)
@@ -1057,14 +1064,21 @@ class FuncTranslator:
     def E(self):
         return Emitter(self.ctx, self.scope, self.sig.cname)
 
-    def translate(self, loop_contracts=None, pre_loop=None, ghost_at_return=None):
+    def translate(self, loop_contracts=None, pre_loop=None, stmt_hooks=None):
         self.loop_contracts = loop_contracts or {}
         self.pre_loop = pre_loop or {}
+        self.stmt_hooks = [[h[0], h[1], 0] for h in (stmt_hooks or [])]
         p = self.P()
         p.expect('{')
-        body = self.block(p, 1)
+        body = ''
+        if 0 in self.pre_loop:   # ghost declarations at function entry (additions only)
+            body += SPEC_PUSH + ''.join('  ' + ln + '\n' for ln in self.pre_loop[0].strip().split('\n')) + SPEC_POP
+        body += self.block(p, 1)
         if not p.at_end():
             raise ExtractError('trailing tokens after body of %s' % self.sig.cname)
+        for h in self.stmt_hooks:
+            if h[2] != 1:
+                raise ExtractError('%s: ghost hook /%s/ matched %d statements, expected exactly 1' % (self.sig.cname, h[0], h[2]))
         return '{\n' + body + '}\n'
 
     def ind(self, d):
@@ -1091,13 +1105,13 @@ class FuncTranslator:
         self.loop_no += 1
         c = self.loop_contracts.get(self.loop_no)
         if c:
-            return '\n' + '\n'.join(self.ind(d + 1) + ln for ln in c.strip().split('\n')) + '\n' + self.ind(d)
+            return '\n' + SPEC_PUSH + '\n'.join(self.ind(d + 1) + ln for ln in c.strip().split('\n')) + '\n' + SPEC_POP + self.ind(d)
         return ''
 
     def pre(self, d):
         g = self.pre_loop.get(self.loop_no + 1)
         if g:
-            return ''.join(self.ind(d) + ln + '\n' for ln in g.strip().split('\n'))
+            return SPEC_PUSH + ''.join(self.ind(d) + ln + '\n' for ln in g.strip().split('\n')) + SPEC_POP
         return ''
 
     def cond_with_decl(self, p, d):
@@ -1123,6 +1137,16 @@ class FuncTranslator:
         return None, txt
 
     def statement(self, p, d):
+        pre = ''
+        if self.stmt_hooks:
+            head = ' '.join(tk.text for tk in p.toks[p.i:p.i + 14])
+            for h in self.stmt_hooks:
+                if re.match(h[0], head):
+                    h[2] += 1
+                    pre += SPEC_PUSH + ''.join(self.ind(d) + ln + '\n' for ln in h[1].strip().split('\n')) + SPEC_POP
+        return pre + self.statement1(p, d)
+
+    def statement1(self, p, d):
         t = p.peek()
         I = self.ind(d)
         if t.text == ';':
@@ -1186,7 +1210,7 @@ class FuncTranslator:
             p.expect(')')
             p.expect(';')
             c = self.loop_contracts.get(my)
-            clause = ('\n' + '\n'.join(self.ind(d + 1) + ln for ln in c.strip().split('\n'))) if c else ''
+            clause = ('\n' + SPEC_PUSH + '\n'.join(self.ind(d + 1) + ln for ln in c.strip().split('\n')) + '\n' + SPEC_POP) if c else ''
             return s + I + 'do' + body + ' while (%s)%s;\n' % (self.E().emit(e)[0], clause)
         if t.text == 'for':
             p.next()
